@@ -417,6 +417,37 @@ func (e *Engine) evalQuant(ctx *EvalCtx, x *Expr) (Val, error) {
 
 func (e *Engine) resolveType(ctx *EvalCtx, text string) (types.Type, error) {
 	text = strings.TrimSpace(text)
+	if e.instTag != "" {
+		text = strings.ReplaceAll(text, "$N", e.instTag) // $N: the type argument of the generic instance under verification
+	}
+	// instantiated generic type: Name[args]
+	if !strings.HasPrefix(text, "[") && !strings.HasPrefix(text, "map[") && strings.HasSuffix(text, "]") {
+		if i := strings.Index(text, "["); i > 0 {
+			base, err := e.resolveType(ctx, text[:i])
+			if err != nil {
+				return nil, err
+			}
+			var targs []types.Type
+			for _, a := range splitTop(text[i+1:len(text)-1], ',') {
+				t, err := e.resolveType(ctx, a)
+				if err != nil {
+					return nil, err
+				}
+				targs = append(targs, t)
+			}
+			inst, err := types.Instantiate(nil, base, targs, false)
+			if err != nil {
+				return nil, fmt.Errorf("cannot instantiate %s: %v", text, err)
+			}
+			// prefer the instance the program already uses (identical named type objects)
+			for _, tt := range e.P.SSA.RuntimeTypes() {
+				if types.Identical(tt, inst) {
+					return tt, nil
+				}
+			}
+			return inst, nil
+		}
+	}
 	switch text {
 	case "int":
 		return types.Typ[types.Int], nil
@@ -675,6 +706,22 @@ func (e *Engine) evalIdent(ctx *EvalCtx, name string) (Val, error) {
 			}
 		}
 		return Val{}, fmt.Errorf("$k is only available in range-index loops")
+	}
+	if name == "$iter" && ctx.loop != nil && ctx.f != nil {
+		// number of completed iterations of a range-over-map loop
+		for r := range ctx.st.iters {
+			if isString(r.X.Type()) {
+				continue
+			}
+			for b := range ctx.loop.Blocks {
+				for _, in := range b.Instrs {
+					if n, ok := in.(*ssa.Next); ok && n.Iter == ssa.Value(r) {
+						return Val{S: ctx.st.iters[r], Sort: "Int", T: types.Typ[types.Int]}, nil
+					}
+				}
+			}
+		}
+		return Val{}, fmt.Errorf("$iter: no range-over-map iterator in this loop")
 	}
 	if name == "$off" && ctx.loop != nil && ctx.f != nil {
 		for r := range ctx.st.iters {
@@ -1772,6 +1819,23 @@ func (e *Engine) evalMethodCall(ctx *EvalCtx, x *Expr) (Val, error) {
 		}
 		vs = append(vs, v)
 	}
+	// a function-typed field applied to arguments: the deterministic application used at call sites
+	if fv, err := e.evalSelect(ctx, recv, mname); err == nil && fv.T != nil {
+		if sig, ok := fv.T.Underlying().(*types.Signature); ok {
+			for i := range vs {
+				if i < sig.Params().Len() {
+					_, a := e.coerceInts(Val{T: sig.Params().At(i).Type()}, vs[i])
+					a.T = sig.Params().At(i).Type()
+					vs[i] = a
+				}
+			}
+			var rt types.Type = sig.Results()
+			if sig.Results().Len() == 1 {
+				rt = sig.Results().At(0).Type()
+			}
+			return e.applyFuncValue(fv, vs, rt, ctx.st)
+		}
+	}
 	if _, isIface := recv.T.Underlying().(*types.Interface); isIface {
 		// interface method with a pure interface contract: the same uninterpreted function as at call sites
 		if c := e.ifaceContractByType(recv.T, mname); c != nil && c.Pure {
@@ -1814,6 +1878,21 @@ func (e *Engine) evalMethodCall(ctx *EvalCtx, x *Expr) (Val, error) {
 	fn := e.P.SSA.MethodValue(sel)
 	if fn == nil {
 		return Val{}, fmt.Errorf("method %s on %s has no body (interface method)", mname, recv.T)
+	}
+	if len(fn.Params) > 0 {
+		if pt, isPtr := fn.Params[0].Type().Underlying().(*types.Pointer); isPtr {
+			if _, recvIsPtr := recv.T.Underlying().(*types.Pointer); !recvIsPtr {
+				// pointer-receiver method applied to a value: evaluate on a heap where a fresh object holds the value
+				st2 := ctx.st.clone()
+				p := e.freshConst("specrecv", "Int")
+				e.assume("true", fmt.Sprintf("(> %s %s)", p, st2.wm))
+				srt := e.sortOf(pt.Elem())
+				st2.heapP[srt] = fmt.Sprintf("(store %s %s %s)", e.getHeapP(st2, srt), p, recv.S)
+				c2 := *ctx
+				c2.st = st2
+				return e.callPure(&c2, fn, append([]Val{{T: fn.Params[0].Type(), S: p}}, vs...))
+			}
+		}
 	}
 	return e.callPure(ctx, fn, append([]Val{recv}, vs...))
 }
